@@ -363,49 +363,56 @@ def check_glyph(prog, rep):
     # SubImage::new may route its (intersected, see C09 R09.1) area through new_unchecked
     si_new = [f.path for f in prog.fns.values() if f.kind == "assoc_fn" and f.name == "new" and "image::sub_image::SubImage" in f.path]
     rep.check(g.path in callers and set(callers) <= {g.path} | set(si_new), "R09.1", "new_unchecked-callers", "SubImage::new_unchecked may only be called from MonoFont::glyph; callers: %s" % sorted(set(callers)), detail=callers)
-    decs = decisions(g)
-    ok = True
+    # path summaries: the empty cell exactly when a glyph cannot be cut (cw == 0 or image narrower than a glyph),
+    # otherwise cell = ((i mod per_row) * cw, (i / per_row) * ch) with per_row = image.width / cw
+    from rules.c10 import fold
+    from mirq.poly import normal_form
+    from mirq.origin import mk_bin
+    cs = ("field", ("param", 1, "self"), field_index(prog, MONOFONT, "character_size"))
+    cw, chh = ("field", cs, 0), ("field", cs, 1)
+    Z = ("const", 0)
+    try:
+        summs = Paths(prog).of(g)
+    except Unsupported as e:
+        rep.fail("R14.5", "glyph-cell", "cannot summarise glyph(): %s" % e, status="undecided", at=g.span, fn=g.path)
+        return
+    bad = []
     n_cell = 0
-    for lits, ret, path in decs:
-        lits = [(strip_refs(d), l) for d, l in lits]
-        r = strip_refs(ret)
-        m = match(r, ("call", "*SubImage::<'a, T>::new_unchecked", "_", ("?img", "?area")))
-        if m is None:
-            ok = False
+    for sm in summs:
+        m = match(sm.ret, ("call", "*SubImage::<'a, T>::new_unchecked", "_", ("?img", "?area")))
+        if m is None or sm.effects or m["?img"] != ("field", ("param", 1, "self"), field_index(prog, MONOFONT, "image")):
+            bad.append("a path returns %s" % show(sm.ret, maxd=3))
             continue
         area = m["?area"]
+        iws = [n for fct in sm.facts for x in fct[1:] if isinstance(x, tuple) for n in walk(x) if n[0] == "field" and n[2] == 0 and n[1][0] == "call" and n[1][1].endswith("::size")]
+        iw = iws[0] if iws else None
+        fs = [tuple(fold(x) if isinstance(x, tuple) and x and isinstance(x[0], str) and x[0] not in ("not", "any") else x for x in fct) for fct in sm.facts]
         if match(area, ("call", "*Rectangle::zero", "_", ())) is not None:
+            just = any(fct in (("eq", cw, Z), ("eq", Z, cw), ("le", cw, Z)) for fct in fs) or (iw is not None and ("lt", iw, cw) in fs)
+            if not just:
+                bad.append("the empty cell is returned although %s" % ("; ".join(show_fact(x) for x in sm.facts) or "nothing was tested"))
             continue
         n_cell += 1
-        from rules.c10 import fold
-        a = fold(area)
-        cw = ("field", ("field", ("param", 1, "self"), field_index(prog, MONOFONT, "character_size")), 0)
-        chh = ("field", ("field", ("param", 1, "self"), field_index(prog, MONOFONT, "character_size")), 1)
-        m2 = match(a, ("call", "*Rectangle::new", "_", (("call", "*Point::new", "_", ("?x", "?y")), "?size")))
-        if m2 is None:
-            ok = False
+        if not (any(fct in (("ne", cw, Z), ("ne", Z, cw), ("lt", Z, cw)) for fct in fs) and iw is not None and ("le", cw, iw) in fs):
+            bad.append("a cell is cut without the guards cw != 0 and image.width >= cw (%s)" % "; ".join(show_fact(x) for x in sm.facts))
             continue
-        size_ok = m2["?size"] == ("field", ("param", 1, "self"), field_index(prog, MONOFONT, "character_size"))
-        per_row = ("bin", "Div", "?iw", cw)
-        idx = "?idx"
-        row = ("bin", "Div", idx, per_row)
-        xm = match(m2["?x"], ("bin", "Mul", ("bin", "Sub", idx, ("bin", "Mul", row, per_row)), cw))
-        if xm is None:
-            xm = match(m2["?x"], ("bin", "Mul", ("bin", "Rem", idx, per_row), cw))
-        ym = match(m2["?y"], ("bin", "Mul", row, chh), xm) if xm is not None else None
-        good = size_ok and xm is not None and ym is not None and any(n[0] == "call" and n[1].endswith("GlyphMapping::index") for n in walk(xm["?idx"])) \
-            and any(n[0] == "call" and n[1].endswith("::size") for n in walk(xm["?iw"]))
-        # guards on this path: cw != 0 and image width >= cw
-        gl = [(show(d), l) for d, l in lits]
-        has_zero_guard = any(match(d, ("bin", "Eq", cw, ("const", 0))) is not None and lit_truth(l) is False for d, l in lits)
-        has_w_guard = any(match(d, ("bin", "Lt", "_", cw)) is not None and lit_truth(l) is False for d, l in lits)
-        ok = ok and good and has_zero_guard and has_w_guard
-        if not (good and has_zero_guard and has_w_guard):
-            rep.fail("R14.5", "glyph-cell", "glyph() cell arithmetic/guards not as required: x=%s y=%s guards=%s" % (show(m2["?x"]), show(m2["?y"]), gl), at=g.span, fn=g.path, status="undecided")
-    if ok and n_cell >= 1:
-        rep.ok("R14.5", "glyph-cell", detail="cell = ((i - i/per_row*per_row)*cw, i/per_row*ch), per_row = image.width/cw, guarded by cw!=0 and image.width>=cw", at=g.span, fn=g.path)
-    elif ok:
-        rep.fail("R14.5", "glyph-cell", "no cell-producing path found in glyph()", status="undecided", at=g.span, fn=g.path)
+        m2 = match(fold(area), ("call", "*Rectangle::new", "_", (("call", "*Point::new", "_", ("?x", "?y")), "?size")))
+        idxs = list(dict.fromkeys(n for n in walk(area) if n[0] == "call" and n[1].endswith("GlyphMapping::index")))
+        if m2 is None or m2["?size"] != cs or len(idxs) != 1 or idxs[0][3] != (("field", ("param", 1, "self"), field_index(prog, MONOFONT, "glyph_mapping")), ("param", 2, "c")):
+            bad.append("the cell is not Rectangle::new(Point::new(x, y), character_size) of glyph_mapping.index(c): %s" % show(area, maxd=4))
+            continue
+        I = idxs[0]
+        per_row = mk_bin("Div", iw, cw)
+        row = mk_bin("Div", I, per_row)
+        want_x = [mk_bin("Mul", mk_bin("Sub", I, mk_bin("Mul", row, per_row)), cw), mk_bin("Mul", mk_bin("Rem", I, per_row), cw)]
+        want_y = mk_bin("Mul", row, chh)
+        nx, ny = normal_form(m2["?x"]), normal_form(m2["?y"])
+        if nx is None or ny is None or not any(nx == normal_form(w) for w in want_x) or ny != normal_form(want_y):
+            bad.append("cell origin x=%s y=%s is not ((i mod per_row)*cw, (i / per_row)*ch) with per_row = image.width / cw" % (show(m2["?x"], maxd=6), show(m2["?y"], maxd=6)))
+    if bad or n_cell < 1:
+        rep.fail("R14.5", "glyph-cell", "glyph() cell arithmetic/guards not as required: %s" % ("; ".join(sorted(set(bad))[:3]) or "no cell-producing path"), at=g.span, fn=g.path, status="undecided")
+    else:
+        rep.ok("R14.5", "glyph-cell", detail="cell = ((i mod per_row)*cw, i/per_row*ch), per_row = image.width/cw, cut iff cw!=0 and image.width>=cw", at=g.span, fn=g.path)
 
 
 def check_grammar(prog, rep):
